@@ -342,10 +342,7 @@ func runWorker(e Engine, mode string, cases []*Case, from int) {
 	// a worker executes a bounded number of cases and then exits cleanly; the supervisor starts the next one. This keeps what the
 	// code under test (or the engine) accumulates per process - open descriptors, leaked goroutines, garbage - from building up
 	// over a long run and failing a late case for a reason that has nothing to do with that case.
-	batch := 150
-	if v, err := strconv.Atoi(os.Getenv("HX_WORKER_BATCH")); err == nil && v > 0 {
-		batch = v
-	}
+	batch := workerBatch()
 	for i := from; i < len(cases) && i < from+batch; i++ {
 		ii := i
 		enc.Encode(workerLine{Start: &ii, I: i})
@@ -362,6 +359,13 @@ func runWorker(e Engine, mode string, cases []*Case, from int) {
 		enc.Encode(l)
 		w.Flush()
 	}
+}
+
+func workerBatch() int {
+	if v, err := strconv.Atoi(os.Getenv("HX_WORKER_BATCH")); err == nil && v > 0 {
+		return v
+	}
+	return 150
 }
 
 type tailBuf struct {
@@ -425,6 +429,7 @@ func supervise(out string, cases []*Case, caseTimeout int, record func(int, *Cas
 	for next < len(cases) {
 		args := append([]string{}, os.Args[1:]...)
 		args = append(args, "-cases", all, "-worker", "-from", fmt.Sprint(next))
+		batchEnd := next + workerBatch()
 		cmd := exec.Command(os.Args[0], args...)
 		if failedBefore {
 			// engines may bound the remaining cases more tightly once the run already carries a violation (a worker died or hung)
@@ -508,6 +513,10 @@ func supervise(out string, cases []*Case, caseTimeout int, record func(int, *Cas
 			}
 			record(started, cases[started], nil, nil, what)
 			next = started + 1
+		} else if werr != nil && next >= batchEnd {
+			// the worker had executed and reported every case of its batch and failed only while exiting (goroutines of finished
+			// cases running into the process's tear-down): like the end of the whole run, this is not a verdict about any case
+			fmt.Fprintf(os.Stderr, "hx: worker exited with %v after completing its batch (cases < %d); ignored\n", werr, next)
 		} else if werr != nil {
 			// died between cases: report against the next case as an execution error and move on
 			if next < len(cases) {
